@@ -18,6 +18,8 @@ FAMILIES = [
     ("RatU", "nocycle", ["direct", "earley", "cky"]),
     ("MaxTimes", "nocycle", ["direct", "earley", "cky"]),
     ("Sat2", "any", ["direct", "earley", "cky"]),
+    ("Sat3", "leftcycle", ["direct", "earley", "cky"]),
+    ("Bool", "leftcycle", ["direct", "earley", "cky"]),
 ]
 
 
